@@ -15,6 +15,14 @@ pub trait Connection<B> {
 /// `http_body::Body` (bound on the request body type; no method of it is used)
 pub trait HttpBody {}
 
+// ---- std::task (as in prelude/std.rs) ----
+#[verifier::external_type_specification]
+#[verifier::external_body]
+pub struct ExContext<'a>(std::task::Context<'a>);
+#[verifier::reject_recursive_types(T)]
+#[verifier::external_type_specification]
+pub struct ExPoll<T>(std::task::Poll<T>);
+
 // ---- error payloads ----
 #[verifier::external_body]
 pub struct BoxError { _p: () }
@@ -54,6 +62,12 @@ pub mod hyper {
                 pub uninterp spec fn ready(&self) -> bool;
                 #[verifier::external_body]
                 pub fn is_ready(&self) -> (r: bool) ensures r == self.ready() { unimplemented!() }
+                /// ghost: the last `poll_ready` reported Ready (previous exchange finished)
+                pub uninterp spec fn settled(&self) -> bool;
+                #[verifier::external_body]
+                pub fn poll_ready(&mut self, cx: &mut std::task::Context<'_>) -> (r: std::task::Poll<Result<(), super::super::super::Error>>)
+                    ensures final(self).id() == old(self).id(), (r is Ready) == final(self).settled()
+                { unimplemented!() }
                 #[verifier::external_body]
                 pub fn send_request(&mut self, req: Request<B>) -> (f: H1Sending<B>)
                     ensures final(self).id() == old(self).id(), final(self).ready() == old(self).ready(), sent(f) == fields_of(req), fut_transport(f) == old(self).id()
@@ -74,6 +88,12 @@ pub mod hyper {
                 pub uninterp spec fn ready(&self) -> bool;
                 #[verifier::external_body]
                 pub fn is_ready(&self) -> (r: bool) ensures r == self.ready() { unimplemented!() }
+                /// ghost: the last `poll_ready` reported Ready (previous exchange finished)
+                pub uninterp spec fn settled(&self) -> bool;
+                #[verifier::external_body]
+                pub fn poll_ready(&mut self, cx: &mut std::task::Context<'_>) -> (r: std::task::Poll<Result<(), super::super::super::Error>>)
+                    ensures final(self).id() == old(self).id(), (r is Ready) == final(self).settled()
+                { unimplemented!() }
                 #[verifier::external_body]
                 pub fn send_request(&mut self, req: Request<B>) -> (f: H2Sending<B>)
                     ensures final(self).id() == old(self).id(), final(self).ready() == old(self).ready(), sent(f) == fields_of(req), fut_transport(f) == old(self).id()
